@@ -12,7 +12,14 @@ from typing import Dict, List, Optional, Set, Tuple, Union
 from netqasm.lang import encoding
 from netqasm.lang.instr import DebugInstruction, NetQASMInstruction, core, nv, vanilla
 from netqasm.lang.instr.flavour import REIDSFlavour
-from netqasm.lang.operand import Immediate, Register, RegisterName, Template
+from netqasm.lang.operand import (
+    ArrayEntry,
+    ArraySlice,
+    Immediate,
+    Register,
+    RegisterName,
+    Template,
+)
 from netqasm.lang.subroutine import Subroutine
 from netqasm.runtime.settings import get_is_using_hardware
 from netqasm.util.log import HostLine
@@ -140,6 +147,15 @@ class NVSubroutineTranspiler(SubroutineTranspiler):
             for op in instr.operands:
                 if isinstance(op, Register):
                     self._used_registers.add(op)
+                elif isinstance(op, ArrayEntry):
+                    # (a register can also be named as the index of an array entry ...
+                    if isinstance(op.index, Register):
+                        self._used_registers.add(op.index)
+                elif isinstance(op, ArraySlice):
+                    # ... or as a bound of an array slice)
+                    for bound in (op.start, op.stop):
+                        if isinstance(bound, Register):
+                            self._used_registers.add(bound)
 
         for i, instr in enumerate(self._subroutine.instructions):
             # check which registers are being written to
